@@ -636,6 +636,11 @@ func run(c *lib.Ctx) error {
 			if k < 3 {
 				cfg = lib.TLCfg{Snr: -1, Tsbd: -1, Mode: modes[k]}
 			}
+			if k == 3 || k == 4 {
+				// every asset (every video timescale) with generated subtitles under both timeline modes
+				cfg = lib.TLCfg{Snr: -1, Tsbd: -1, Mode: []string{"tlt", "tlnr"}[k-3], Extra: []string{"timesubsstpp_en,sv/", "timesubswvtt_en/"}[(k+len(jobs))%2]}
+				pairs.Add("mpd", segMS, cfg)
+			}
 			if cfg.AtoMS > 0 {
 				// a finite offset switches the server to paced chunked delivery of the newest segments
 				// (C09); keep those runs short
